@@ -363,10 +363,30 @@ def implicit_reg_rule(chk):
     par = g.parent_map()
     guarded = set()
     cond_roots = [x.get("cond") for x in g.ex.values() if x["k"] == "s:IfStmt" and x.get("cond") is not None]
+    # named sub-conditions (`const bool reg_mask_mismatch = ...; if (reg_mask_mismatch && ...)`) are read through their initialisers
+    linit = {}
+    for d_ in g.ex.values():
+        if d_["k"] == "decl":
+            for v_ in d_["vars"]:
+                if v_.get("init") is not None:
+                    linit[v_["did"]] = v_["init"]
+
+    def expand(i, depth=0):
+        out = []
+        for j in g.walk(i):
+            out.append(j)
+            y = g.e(j)
+            if y is not None and y["k"] == "ref" and y.get("dk") == "local" and y.get("did") in linit and depth < 3:
+                out += expand(linit[y["did"]], depth + 1)
+        return out
+
+    def etext(i):
+        return " ".join(g.text(j) for j in expand(i) if (g.e(j) or {}).get("k") in ("call", "mcall", "binop", "ref"))
+    _walk_orig, _text_orig = g.walk, g.text
     for i in cond_roots:
         # any condition that reads the reg_mask() of both the operand and the signature entry
         owners = set()
-        for j in g.walk(i):
+        for j in expand(i):
             y = g.e(j)
             if y is not None and y["k"] == "mcall" and y.get("cn") == "reg_mask" and y.get("obj"):
                 r = g.root_ref(y["obj"])
@@ -380,8 +400,9 @@ def implicit_reg_rule(chk):
                 while j in par:
                     pj = g.e(par[j])
                     if pj is not None and pj["k"] == "s:IfStmt" and pj.get("cond") is not None and j != pj.get("cond") and j not in set(g.walk(pj["cond"])):
-                        conds.append(g.text(pj["cond"]))
+                        conds.append(etext(pj["cond"]))
                     j = par[j]
+                conds.append("own: " + " ".join(t for t in etext(i).split() if "common_flags" in t or "kRegMask" in t or "kMemMask" in t) if "common_flags" in etext(i) else "")
                 for cname in ("kRegMask", "kMemMask"):
                     if any(cname in c for c in conds):
                         guarded.add(cname)
@@ -394,7 +415,7 @@ def implicit_reg_rule(chk):
         ok_m, where = False, None
         for i in cond_roots:
             owners = set()
-            for j in g.walk(i):
+            for j in expand(i):
                 y = g.e(j)
                 if y is not None and y["k"] == "mcall" and y.get("cn") == "reg_mask" and y.get("obj"):
                     r = g.root_ref(y["obj"])
@@ -406,11 +427,11 @@ def implicit_reg_rule(chk):
             while j in par:
                 pj = g.e(par[j])
                 if pj is not None and pj["k"] == "s:IfStmt" and pj.get("cond") is not None and j != pj.get("cond") and j not in set(g.walk(pj["cond"])):
-                    conds.append(g.text(pj["cond"]))
+                    conds.append(etext(pj["cond"]))
                 j = par[j]
             if any("kMemMask" in c for c in conds):
                 where = i
-                own = " ".join(g.text(i).split())
+                own = " ".join(etext(i).split())
                 ok_m = ("kRegMask" in own and "ref" in own) or "ref.has_reg" in own or any(("kRegMask" in c and "ref" in c and "common" not in c) for c in conds)
         chk.ob(R, "check_op_sig|merged-signatures", ok_m, loc=g.loc(where) if where is not None else "asmjit/x86/x86instapi.cpp:%d" % g.line,
                detail="%d signature entries have a register AND a memory alternative with a fixed register (`ax | m16` of fnstsw / fstsw): the "
